@@ -171,7 +171,7 @@ fn behaviour(cfg: Configuration) -> String {
 #[derive(Debug, Clone, PartialEq)]
 enum ModelAnswer {
     Err(String),
-    Ok { text: String, roundtrip: String, in_h: bool },
+    Ok { text: String, roundtrip: String, in_h: bool, wf: bool },
     Bad(String),
 }
 
@@ -202,8 +202,8 @@ fn parse_model(answer: &str) -> ModelAnswer {
     let parts: Vec<&str> = answer.split(' ').collect();
     match parts.as_slice() {
         ["err", class] => ModelAnswer::Err((*class).to_owned()),
-        ["ok", text, rt, h] => match unhex(text).and_then(|b| String::from_utf8(b).ok()) {
-            Some(t) => ModelAnswer::Ok { text: t, roundtrip: (*rt).to_owned(), in_h: *h == "in" },
+        ["ok", text, rt, h, wf] => match unhex(text).and_then(|b| String::from_utf8(b).ok()) {
+            Some(t) => ModelAnswer::Ok { text: t, roundtrip: (*rt).to_owned(), in_h: *h == "in", wf: *wf == "wf" },
             None => ModelAnswer::Bad(answer.to_owned()),
         },
         _ => ModelAnswer::Bad(answer.to_owned()),
@@ -687,8 +687,27 @@ fn check_case(case: &Case, model: &mut Model) -> Outcome {
                 });
             }
         }
-        (Ok(cfg), ModelAnswer::Ok { text: model_text, roundtrip, in_h }) => {
+        (Ok(cfg), ModelAnswer::Ok { text: model_text, roundtrip, in_h, wf }) => {
             out.in_h = Some(*in_h);
+            if !*wf {
+                // `roundtrip_partial` assumes `configWF`; every state the model deserialises must satisfy it
+                out.violations.push(Violation {
+                    kind: "correspondence".into(),
+                    check: "model-state-well-formed".into(),
+                    what: "the model accepted this configuration into a state outside configWF".into(),
+                    input: input.clone(),
+                    failing_input_found: false,
+                });
+            }
+            if *in_h && roundtrip != "same" {
+                out.violations.push(Violation {
+                    kind: "correspondence".into(),
+                    check: "model-roundtrip-inside-H".into(),
+                    what: format!("inside H19 the model itself does not round-trip: {}", roundtrip),
+                    input: input.clone(),
+                    failing_input_found: false,
+                });
+            }
             out.model_rt = Some(roundtrip.clone());
             match real_ser(cfg) {
                 Ok(real_text) => {
